@@ -108,6 +108,12 @@ package tty
 //@   loop 1 (range data) invariant rangeindex >= -1 && rangeindex < len(data) && wfVT(t) && geomSame(t) && (t.state != StateActive ==> console.scr == old(console.scr))
 
 
+// a new terminal: exactly the configured tab width (0 included: tabs then expand to nothing) and
+// scrollback, cursor home, no console, inactive
+//@ func NewVT(tabWidth uint8, scrollback uint32) (t *VT)
+//@   property C17
+//@   ensures t != nil && t.tabWidth == tabWidth && t.scrollback == scrollback && t.cursorX == 1 && t.cursorY == 1 && t.cons == nil && t.state == StateInactive && isnil(t.data) && t.viewportY == 0
+
 // attach: geometry and colours from the console, all cells blank, cursor home
 //@ func (t *VT) AttachTo(cons console.Device)
 //@   property C17 C18
